@@ -52,7 +52,9 @@ def gen_tree(rng, depth, top=True):
             if rng.random() < 0.3:
                 props['populate_defaults'] = False
             if rng.random() < 0.3:
-                props['default'] = {'d': [nm]}        # a mutable default of a nested namespace (changed in place by the probe)
+                # a mutable default of a nested namespace (changed in place by the probe): a dict, or a mutable mapping of another
+                # kind (collections.UserDict - as an attribute dictionary or a configuration object would be)
+                props['default'] = {'d': [nm]} if rng.random() < 0.5 else ('USERDICT', nm)
             if rng.random() < 0.3:
                 props['unit'] = 'eV'          # a PortNamespace SUBCLASS carrying extra state (class UnitNS below)
             out.append((nm, props, gen_tree(rng, depth - 1, top=False)))
@@ -158,6 +160,10 @@ def build(ns, tree, plumpy, ns_cls=None):
         if sub is None:
             ns[nm] = InputPort(nm, **copy.deepcopy(LEAF_ATTRS[attr]))
         else:
+            attr = dict(attr)
+            if isinstance(attr.get('default'), (tuple, list)) and attr['default'][0] == 'USERDICT':
+                import collections
+                attr['default'] = collections.UserDict({'d': [attr['default'][1]]})
             if ns_cls is not None:
                 ns[nm] = ns_cls(nm, **{k: v for k, v in attr.items() if k != 'unit'})
                 ns[nm].unit = attr.get('unit')
@@ -346,7 +352,7 @@ def run_impl(case):
         if isinstance(port, PortNamespace):
             port['newport'] = InputPort('newport')
             port.dynamic = not port.dynamic
-            if port.has_default() and isinstance(port.default, dict):
+            if port.has_default() and hasattr(port.default, '__setitem__'):
                 port.default['probe-dst'] = 9      # in place: the default VALUE of a copied namespace is a copy too
         elif port.has_default() and isinstance(port.default, dict):
             port.default['cut'].append(9)          # in place: a shallow copy of the port would share this object
@@ -361,7 +367,7 @@ def run_impl(case):
         port.required = not port.required
         if isinstance(port, PortNamespace):
             port['srcnew'] = InputPort('srcnew')
-            if port.has_default() and isinstance(port.default, dict):
+            if port.has_default() and hasattr(port.default, '__setitem__'):
                 port.default['probe-src'] = 7
         elif port.has_default() and isinstance(port.default, dict):
             port.default['cut'].append(7)
